@@ -117,6 +117,64 @@ def run(ctx):
             ok = bool(ss) and all(t.qualname == r.select.qualname for s in ss for t in s.targets)
             c.ob("R4", ok, f, "uses-shared-selection", "calls the one selection routine" if ok else
                  f"{f.short} does not obtain its transitions from _select_transitions", f.node)
+    # ---- R6 memoised guard verdicts are keyed by the identity of what was evaluated ----
+    n_memo = 0
+    for v in VIEWS[:1]:
+        clo = res.closure([roles(ctx, v).select], v, include_closures=True)
+        for q, (f, par) in sorted(clo.items()):
+            for x in own_nodes(f.node):
+                if not (isinstance(x, ast.Assign) and len(x.targets) == 1 and isinstance(x.targets[0], ast.Subscript)
+                        and isinstance(x.value, ast.Call)):
+                    continue
+                tgt = x.targets[0]
+                if not (isinstance(tgt.value, ast.Name) and "cache" in tgt.value.id.lower() or isinstance(tgt.value, ast.Name) and "memo" in tgt.value.id.lower()):
+                    continue
+                n_memo += 1
+                key = tgt.slice
+                kexpr = key
+                if isinstance(key, ast.Name):
+                    defs = [a for a in assignments_to(f, key.id) if isinstance(a, ast.Assign) and
+                            any(isinstance(t_, ast.Name) and t_.id == key.id for t_ in a.targets)]
+                    kexpr = defs[-1].value if defs else key
+                evaluated = [a for a in x.value.args]
+                roots = set()
+                for a in evaluated:
+                    roots.add(norm(a))
+                    b = a
+                    while isinstance(b, ast.Attribute):
+                        b = b.value
+                        roots.add(norm(b))
+                ok = _identity_key(kexpr, roots)
+                c.ob("R6", ok, f, f"memo-key:{tgt.value.id}",
+                     f"memo '{tgt.value.id}' is keyed by the identity of the evaluated object ({norm(kexpr)})" if ok else
+                     f"memo '{tgt.value.id}' stores the verdict of '{stmt_text(x.value, 60)}' under the key '{norm(kexpr)}', which is not the identity of "
+                     f"the transition/guard that was evaluated: two different guards can share one slot within a selection pass, so a candidate "
+                     f"whose own guard is false can be nominated (and an enabled one skipped)", x)
+    c.floor("R6", "memoised guard evaluations in the selection closure", n_memo, 1)
+    # ---- R7 a transition shared by several regions is selected once ---------------------
+    sel = roles(ctx, "Interpreter").select
+    apps = [x for x in own_nodes(sel.node) if isinstance(x, ast.Call) and isinstance(x.func, ast.Attribute) and x.func.attr == "append"
+            and dotted(x.func.value) == "selected"]
+    c.floor("R7", "appends to the selection list", len(apps), 1)
+    for x in apps:
+        ok = False
+        for a, pol in guards_at(sel, x):
+            cp = compare_parts(a)
+            if cp and isinstance(cp[1], ast.NotIn) and pol and "id(" in norm(cp[0]) and norm(x.args[0]) in norm(cp[0]):
+                ok = True
+        c.ob("R7", ok, sel, "selected-once-by-identity", "a winner is appended only if its identity was not selected yet in this pass" if ok else
+             "winners are appended without the identity de-duplication: a transition declared on an ancestor shared by N regions fires N times", x)
     # ---- R5 leaf order is a total order ----------------------------------------
     shared.set_order(ctx, "R5", ("base_interpreter",),
                      only_funcs={"BaseInterpreter._select_transitions", "BaseInterpreter._collect_eligible_transitions"})
+
+
+def _identity_key(kexpr, roots) -> bool:
+    """id(X) / X / a tuple whose first component is one of those, where X is (a prefix of) the evaluated object."""
+    if isinstance(kexpr, ast.Call) and isinstance(kexpr.func, ast.Name) and kexpr.func.id == "id" and kexpr.args:
+        return norm(kexpr.args[0]) in roots
+    if isinstance(kexpr, ast.Tuple) and kexpr.elts:
+        return any(_identity_key(e, roots) for e in kexpr.elts)
+    if isinstance(kexpr, (ast.Name, ast.Attribute)):
+        return norm(kexpr) in roots and not norm(kexpr).endswith((".type", ".name", ".event"))
+    return False
